@@ -342,125 +342,145 @@ func main() {
 		seeds := findDelaySeeds(cfg.Seed)
 		for sname, br := range seeds {
 			sname, br := sname, br
-			for _, d := range ds {
-				d := d
-				// one scenario per (seed, delivery): all probe classes are run and
-				// compared with the reference trace and with each other
-				emit(mc.Scenario{
-					Name:   fmt.Sprintf("%s/%s", sname, d.name),
-					Params: map[string]any{"seed": sname, "delivery": d.name, "probes": len(ps)},
-					Weight: 5,
-					Run: func(c *mc.Ctx) {
-						delay := time.Duration(30+ref.CloseDelay(br.Seed)) * time.Second
-						var firstTrace map[string]string = map[string]string{}
-						for _, p := range ps {
-							rnd.Install(rnd.New(cfg.Seed, "c03-real-"+sname))
-							pr := rnd.New(cfg.Seed, "c03-probe-"+p.name)
-							sf, err := br.ServerFactory()
-							if err != nil {
-								fail(c, "setup", "setup", "%v", err)
-								return
-							}
-							var blob, pre, pre2 []byte
-							var tr trace
-							// the probe bytes are built inside a scheduler run (they need the model hour)
-							sched.Run(c, sched.Options{NoPreempt: true, Start: time.Unix(1_700_000_000, 0).Add(13 * time.Minute)}, func() {
-								if p.replay {
-									blob = validHello(br, pr, 85, 0)
-									pre = blob
-									if p.busy {
-										pre2 = validHello(br, pr, 90, 0)
-									}
-								} else {
-									blob = p.build(br, pr)
-								}
-							})
-							if strings.HasPrefix(p.name, "extended") {
-								vl := p.validLen
-								if vl == 0 {
-									vl = 32 + 85 + 32
-								}
-								// a chunk boundary exactly at the end of the embedded valid
-								// handshake presents a valid handshake first: legitimately accepted
-								skip := false
-								for _, cut := range d.splits(len(blob)) {
-									if cut == vl {
-										skip = true
-									}
-								}
-								if skip {
-									continue
-								}
-							}
-							busyUnavailable = false
-							tr = runProbe(c, br, sf, blob, d, pre, pre2)
-							if busyUnavailable {
-								c.Count("busy_bridge_probes_not_set_up", 1)
-								continue
-							}
-							c.Count("probes", 1)
-							c.AddExecutions(1)
-							if tr.panics != "" {
-								fail(c, "no-panic", "panic", "probe %s: %s", p.name, tr.panics)
-								continue
-							}
-							c.Observe(p.name, tr.String())
-							c.Case(p.name, tr.String())
-							if strings.HasPrefix(p.name, "extended") {
-								// one of the server's reads ended exactly at the end of the
-								// embedded valid handshake (e.g. its 8192-byte buffer was
-								// full): it was presented a valid handshake first
-								vl, legit := int64(p.validLen), false
-								if vl == 0 {
-									vl = 32 + 85 + 32
-								}
-								for _, e := range tr.readEnds {
-									if e == vl {
-										legit = true
-									}
-								}
-								if legit {
-									c.Count("extended_probes_read_boundary_at_valid_length", 1)
-									continue
-								}
-							}
-							if tr.wrote != 0 {
-								fail(c, "silent", "wrote/"+class(p.name), "probe %s (%s): the server wrote %d bytes", p.name, d.name, tr.wrote)
-								continue
-							}
-							if !tr.wrapErr {
-								fail(c, "silent", "accepted/"+class(p.name), "probe %s (%s): WrapConn accepted the connection", p.name, d.name)
-								continue
-							}
-							if !tr.closed {
-								fail(c, "close-time", "never-closed/"+class(p.name), "probe %s (%s): the server never closed the connection", p.name, d.name)
-								continue
-							}
-							// expected close instant
-							want := delay
-							leaveAt := tr.leftAt
-							if leaveAt >= 0 && leaveAt < want {
-								want = leaveAt
-							}
-							if tr.closeAt != want {
-								fail(c, "close-time", "close-time/"+class(p.name), "probe %s (%s): connection closed at accept+%v, want accept+%v (30s + closeDelay %ds%s)", p.name, d.name, tr.closeAt, want, ref.CloseDelay(br.Seed), leaveNote(leaveAt))
-								continue
-							}
-							// everything delivered before the close was consumed
-							if tr.consumed != tr.sent {
-								fail(c, "drain", "drain/"+class(p.name), "probe %s (%s): %d of %d delivered bytes were consumed", p.name, d.name, tr.consumed, tr.sent)
-							}
-							// indistinguishability across classes: same schedule, same lengths => same trace
-							k := fmt.Sprintf("len=%d", len(blob))
-							sig := fmt.Sprintf("closeAt=%v wrote=%d consumed=%d", tr.closeAt, tr.wrote, tr.consumed)
-							if prev, ok := firstTrace[k]; ok && prev != sig {
-								fail(c, "indistinguishable", "distinguishable/"+class(p.name), "probe %s (%s) has trace %q, another invalid probe of the same length had %q", p.name, d.name, sig, prev)
-							} else {
-								firstTrace[k] = sig
-							}
+			for di, d := range ds {
+				for _, shared := range []bool{false, true} {
+					d, shared := d, shared
+					// one scenario per (seed, delivery): all probe classes are run and
+					// compared with the reference trace and with each other.  The
+					// "one-bridge" variant sends every probe to the same server factory,
+					// one connection after the other (what a running bridge sees); the
+					// plain variant gives each probe a bridge that has seen nothing.
+					name := fmt.Sprintf("%s/%s", sname, d.name)
+					if shared {
+						if !cfg.Thorough() && di%3 != 0 {
+							continue
 						}
-					},
-				})
+						name += "/one-bridge"
+					}
+					emit(mc.Scenario{
+						Name:   name,
+						Params: map[string]any{"seed": sname, "delivery": d.name, "probes": len(ps), "one_bridge_for_all_probes": shared},
+						Weight: 5,
+						Run: func(c *mc.Ctx) {
+							delay := time.Duration(30+ref.CloseDelay(br.Seed)) * time.Second
+							var firstTrace map[string]string = map[string]string{}
+							var sharedSf base.ServerFactory
+							for _, p := range ps {
+								rnd.Install(rnd.New(cfg.Seed, "c03-real-"+sname))
+								pr := rnd.New(cfg.Seed, "c03-probe-"+p.name)
+								sf := sharedSf
+								if sf == nil {
+									var err error
+									sf, err = br.ServerFactory()
+									if err != nil {
+										fail(c, "setup", "setup", "%v", err)
+										return
+									}
+									if shared {
+										sharedSf = sf
+									}
+								}
+								var blob, pre, pre2 []byte
+								var tr trace
+								// the probe bytes are built inside a scheduler run (they need the model hour)
+								sched.Run(c, sched.Options{NoPreempt: true, Start: time.Unix(1_700_000_000, 0).Add(13 * time.Minute)}, func() {
+									if p.replay {
+										blob = validHello(br, pr, 85, 0)
+										pre = blob
+										if p.busy {
+											pre2 = validHello(br, pr, 90, 0)
+										}
+									} else {
+										blob = p.build(br, pr)
+									}
+								})
+								if strings.HasPrefix(p.name, "extended") {
+									vl := p.validLen
+									if vl == 0 {
+										vl = 32 + 85 + 32
+									}
+									// a chunk boundary exactly at the end of the embedded valid
+									// handshake presents a valid handshake first: legitimately accepted
+									skip := false
+									for _, cut := range d.splits(len(blob)) {
+										if cut == vl {
+											skip = true
+										}
+									}
+									if skip {
+										continue
+									}
+								}
+								busyUnavailable = false
+								tr = runProbe(c, br, sf, blob, d, pre, pre2)
+								if busyUnavailable {
+									c.Count("busy_bridge_probes_not_set_up", 1)
+									continue
+								}
+								c.Count("probes", 1)
+								c.AddExecutions(1)
+								if tr.panics != "" {
+									fail(c, "no-panic", "panic", "probe %s: %s", p.name, tr.panics)
+									continue
+								}
+								c.Observe(p.name, tr.String())
+								c.Case(p.name, tr.String())
+								if strings.HasPrefix(p.name, "extended") {
+									// one of the server's reads ended exactly at the end of the
+									// embedded valid handshake (e.g. its 8192-byte buffer was
+									// full): it was presented a valid handshake first
+									vl, legit := int64(p.validLen), false
+									if vl == 0 {
+										vl = 32 + 85 + 32
+									}
+									for _, e := range tr.readEnds {
+										if e == vl {
+											legit = true
+										}
+									}
+									if legit {
+										c.Count("extended_probes_read_boundary_at_valid_length", 1)
+										continue
+									}
+								}
+								if tr.wrote != 0 {
+									fail(c, "silent", "wrote/"+class(p.name), "probe %s (%s): the server wrote %d bytes", p.name, d.name, tr.wrote)
+									continue
+								}
+								if !tr.wrapErr {
+									fail(c, "silent", "accepted/"+class(p.name), "probe %s (%s): WrapConn accepted the connection", p.name, d.name)
+									continue
+								}
+								if !tr.closed {
+									fail(c, "close-time", "never-closed/"+class(p.name), "probe %s (%s): the server never closed the connection", p.name, d.name)
+									continue
+								}
+								// expected close instant
+								want := delay
+								leaveAt := tr.leftAt
+								if leaveAt >= 0 && leaveAt < want {
+									want = leaveAt
+								}
+								if tr.closeAt != want {
+									fail(c, "close-time", "close-time/"+class(p.name), "probe %s (%s): connection closed at accept+%v, want accept+%v (30s + closeDelay %ds%s)", p.name, d.name, tr.closeAt, want, ref.CloseDelay(br.Seed), leaveNote(leaveAt))
+									continue
+								}
+								// everything delivered before the close was consumed
+								if tr.consumed != tr.sent {
+									fail(c, "drain", "drain/"+class(p.name), "probe %s (%s): %d of %d delivered bytes were consumed", p.name, d.name, tr.consumed, tr.sent)
+								}
+								// indistinguishability across classes: same schedule, same lengths => same trace
+								k := fmt.Sprintf("len=%d", len(blob))
+								sig := fmt.Sprintf("closeAt=%v wrote=%d consumed=%d", tr.closeAt, tr.wrote, tr.consumed)
+								if prev, ok := firstTrace[k]; ok && prev != sig {
+									fail(c, "indistinguishable", "distinguishable/"+class(p.name), "probe %s (%s) has trace %q, another invalid probe of the same length had %q", p.name, d.name, sig, prev)
+								} else {
+									firstTrace[k] = sig
+								}
+							}
+						},
+					})
+				}
 			}
 		}
 	})
